@@ -1023,9 +1023,16 @@ impl KadBox {
     }
 }
 
+#[path = "c16_s2.rs"]
+mod s2;
+
 impl VerifBox for KadBox {
     fn step(&mut self, line: &str) -> String {
         let t: Vec<&str> = line.split_whitespace().collect();
+        if let ["s2", rest @ ..] = t.as_slice() {
+            // real nodes on loopback, own runtime with the real clock
+            return s2::run(rest);
+        }
         if let ["net", kinds @ ..] = t.as_slice() {
             let replication = kinds
                 .iter()
